@@ -731,7 +731,9 @@ ARB_FLOAT_SHAPES = [["F"], ["L"], ["U"], ["L", "U"], ["U", "L"], ["F", "L"], ["F
                     ["L", "F", "U"], ["L", "U", "F"], []]
 ARB_FLOAT_PAIRS = [("0.0", "1.0"), ("-5.5", "1e3"), ("0.0", "10.0"), ("64.0", "65.0"), ("-100", "100"),
                    ("1e-40", "1e-39"), ("-3.0e38", "3.0e38"), ("16777216.0", "16777218.0"), ("-1.0", "0.0"),
-                   ("0.1", "0.3"), ("-0.0", "0.0"), ("5", "7.25"), ("-65.0", "-64.0"), ("1e30", "2e30")]
+                   ("0.1", "0.3"), ("-0.0", "0.0"), ("5", "7.25"), ("-65.0", "-64.0"), ("1e30", "2e30"),
+                   # lower + fl(upper - lower) exceeds the upper bound for these (rounding of the range)
+                   ("-1.1", "0.1"), ("-3.3", "0.1"), ("-956.078", "0.9478")]
 
 
 def gen_arb_floats(rng, tier, start=0):
